@@ -36,6 +36,9 @@ func (s *Shrinker) try(tr *Trace) (bool, *Violation) {
 	s.Runs++
 	c := tr.Clone()
 	res := Execute(s.T, c, nil, s.Prop, s.Bubble)
+	if s.Prop == "C01" && c.HasFlag("twin") && len(res.Violations) == 0 {
+		applyTwin(res, c)
+	}
 	return hasClass(res, s.Class)
 }
 
